@@ -1,5 +1,5 @@
 From Coq Require Import Extraction ExtrOcamlBasic.
-From Shisui Require Import Base.Bytes Model.Handlers Model.Framing.
+From Shisui Require Import Base.Bytes Model.Handlers Model.Framing Model.Versions.
 Extraction Language OCaml.
 Extraction "c08_model.ml" handle_find_content fc_reply_len process_content pick_sorted talkresp_datagram logdist rec_eqb
-  sorted_by_b findcontent_max_payload filter_nodes accept_conditions_b relay_ok encode_utp_content decode_utp_content.
+  sorted_by_b findcontent_max_payload filter_nodes accept_conditions_b relay_ok encode_utp_content decode_utp_content node_encode_utp node_decode_utp empty_cache.
